@@ -132,6 +132,7 @@ FEATURE_ARGS = {
     "both": "--features index-positions,prohibit-unsafe",
     "utf16": "--features utf16",
     "pattern": "--features pattern",
+    "nostd": "--no-default-features --features nostd",
 }
 def build_harness(feat="default", profile="release"):
     shutil.copy(os.path.join(REPO, "Cargo.lock"), os.path.join(V, "harness", "Cargo.lock"))
